@@ -22,6 +22,7 @@ RULE = (
     'burn, or was refused; distinct = distinct (configuration, trajectory)'
 )
 ASSUMPTIONS = [
+    'trajectories: an 8-point synthetic flight with assigned phase counts, the same flight with phase counts never assigned (declared defaults), thorough: a second synthetic and a simulated flight',
     'shipped sample performance model and engine database entry; both shipped fuels (conventional_jetA for every trajectory, SAF for the synthetic one); a second model whose LTO data are mutable containers',
     'every case computes twice under the same loaded configuration: both computations must end the same way (same refusal, or bit-identical inventory)',
     'configuration singleton reset and re-loaded by the harness for every case',
@@ -32,7 +33,7 @@ _STATE = {}
 
 
 def _trajs(tier):
-    t = {'syn8': ec.synthetic8()}
+    t = {'syn8': ec.synthetic8(), 'syn8u': dict(ec.synthetic8(), n_climb=0, n_descent=0, unset_phases=True)}
     if tier == 'thorough':
         t['flown'] = None  # simulated flight, built in the worker
         t['syn5'] = dict(
